@@ -16,7 +16,11 @@
 from warnings import warn
 import unified_planning as up
 from unified_planning.model.expression import ConstantExpression
-from unified_planning.exceptions import UPProblemDefinitionError, UPValueError
+from unified_planning.exceptions import (
+    UPProblemDefinitionError,
+    UPTypeError,
+    UPValueError,
+)
 from typing import Optional, List, Dict, Union, Iterable, Set
 
 
@@ -46,6 +50,7 @@ class FluentsSetMixin:
         self._initial_defaults: Dict["up.model.types.Type", "up.model.fnode.FNode"] = {}
         for k, v in initial_defaults.items():
             (v_exp,) = self.environment.expression_manager.auto_promote(v)
+            self._check_default_value(k, v_exp, f"type {k}")
             self._initial_defaults[k] = v_exp
         # The field initial default optionally associates a type to a default value. When a new fluent is
         # created with no explicit default, it will be associated with the initial-default of his type, if any.
@@ -54,6 +59,19 @@ class FluentsSetMixin:
     def environment(self) -> "up.environment.Environment":
         """Returns the `problem` `Environment`."""
         return self._env
+
+    @staticmethod
+    def _check_default_value(
+        typename: "up.model.types.Type", value: "up.model.fnode.FNode", what: str
+    ):
+        if not value.is_constant():
+            raise UPTypeError(
+                f"The default initial value {value} of {what} is not a constant."
+            )
+        if not typename.is_compatible(value.type):
+            raise UPTypeError(
+                f"The default initial value {value} of {what} is not compatible with the type {typename}."
+            )
 
     @property
     def fluents(self) -> List["up.model.fluent.Fluent"]:
@@ -144,11 +162,16 @@ class FluentsSetMixin:
                 raise UPProblemDefinitionError(msg)
             else:
                 warn(msg)
-        self._fluents.append(fluent)
+        v_exp = None
         if not default_initial_value is None:
+            # checked before the fluent is stored, so that a rejected call
+            # leaves the fluents set unchanged
             (v_exp,) = self.environment.expression_manager.auto_promote(
                 default_initial_value
             )
+            self._check_default_value(fluent.type, v_exp, f"fluent {fluent.name}")
+        self._fluents.append(fluent)
+        if v_exp is not None:
             self._fluents_defaults[fluent] = v_exp
         elif fluent.type in self._initial_defaults:
             self._fluents_defaults[fluent] = self._initial_defaults[fluent.type]
